@@ -297,11 +297,17 @@ class _SetSites(ast.NodeVisitor):
                             wrapper = "comprehension->set"
                         if isinstance(par, ast.Call) and isinstance(par.func, ast.Name) and par.func.id in ("sorted", "set", "len", "any", "all", "min", "max"):
                             wrapper = "comprehension->" + par.func.id
+                            if par.func.id == "sorted" and any(k.arg in ("key", None) for k in par.keywords):
+                                wrapper = "comprehension->sorted(key=)"
                         add(g.iter, g.iter, wrapper)
             if isinstance(n, ast.Call):
                 f = n.func
                 if isinstance(f, ast.Name) and f.id in ("list", "tuple", "sorted", "iter", "enumerate", "deque") and n.args and is_set(n.args[0]):
                     how = f.id
+                    if f.id == "sorted" and any(k.arg in ("key", None) for k in n.keywords):
+                        # a sort key that is not injective leaves ties in set-iteration order:
+                        # `sortNames_perm` speaks about the plain sort only
+                        how = "sorted(key=)"
                     par = parents.get(id(n))
                     if f.id == "iter" and isinstance(par, ast.Call) and isinstance(par.func, ast.Name) and par.func.id == "next":
                         how = "next(iter())"
